@@ -23,6 +23,10 @@ import (
 type c11Plan struct {
 	H1 []vfCmd `json:"h1"`
 	H2 []vfCmd `json:"h2"`
+	// OverlapLast: the last command of H1 is issued while the one before it sits between listing the services for
+	// its snapshot and writing it (only if nobody holds the snapshot lock at that point: otherwise the two simply
+	// run one after the other) - the file written last must still be the current one
+	OverlapLast bool `json:"overlap_last,omitempty"`
 }
 
 func c11Gen(t *rapid.T) c11Plan {
@@ -33,6 +37,7 @@ func c11Gen(t *rapid.T) c11Plan {
 	for i := 0; i < n1; i++ {
 		p.H1 = append(p.H1, vfGenOKCmd(t, m, cfg))
 	}
+	p.OverlapLast = rapid.IntRange(0, 3).Draw(t, "overlap-last") == 0
 	n2 := rapid.IntRange(0, 8).Draw(t, "n2")
 	for i := 0; i < n2; i++ {
 		if rapid.IntRange(0, 3).Draw(t, "fail?") == 0 {
@@ -237,6 +242,48 @@ func c11Run(t *testing.T, p c11Plan) (res vfResult) {
 		a := w.newRouter("a")
 		m := newVFModel()
 		for i, c := range p.H1 {
+			if p.OverlapLast && i == len(p.H1)-2 {
+				c2 := p.H1[i+1]
+				want, want2 := m.apply(c), m.apply(c2)
+				sc := newVFSched(w, []string{"snapshot.listed"}, nil)
+				var got, got2 vfCmdResult
+				sc.spawn("first", func() { got = vfExec(w, a, c) })
+				overlapped := false
+				for guard := 0; guard < 400 && !sc.isFinished("first"); guard++ {
+					synctest.Wait()
+					if sc.parkedAt("first") != "" {
+						if !overlapped && a.snapshotLock.TryLock() {
+							// nobody holds the snapshot lock while "first" has its list: the next command may overtake it
+							a.snapshotLock.Unlock()
+							sc.mu.Lock()
+							sc.off = true
+							sc.mu.Unlock()
+							got2 = vfExec(w, a, c2)
+							overlapped = true
+						}
+						sc.release("first")
+						continue
+					}
+					time.Sleep(10 * time.Millisecond)
+				}
+				sc.stop()
+				vfCurSched.Store(nil)
+				synctest.Wait()
+				if !overlapped {
+					got2 = vfExec(w, a, c2)
+				} else {
+					res.label("history-ends-with-overtaken-snapshot")
+				}
+				if got.Panicked != "" || !vfClassOK(want, vfErrClass(got.Err)) {
+					res.failf("setup-failed", "H1 step %d %s: result %q panic=%q, model accepts %v", i, c, vfErrClass(got.Err), got.Panicked, want)
+					return
+				}
+				if got2.Panicked != "" || !vfClassOK(want2, vfErrClass(got2.Err)) {
+					res.failf("setup-failed", "H1 step %d %s: result %q panic=%q, model accepts %v", i+1, c2, vfErrClass(got2.Err), got2.Panicked, want2)
+					return
+				}
+				break
+			}
 			want := m.apply(c)
 			got := vfExec(w, a, c)
 			if got.Panicked != "" || !vfClassOK(want, vfErrClass(got.Err)) {
